@@ -105,3 +105,17 @@ abbrev Slots := List (Option Val)
 /-- decoder-side slot state: `none` = key not seen yet; `some v` = seen, with content `v`
     (`some none` after an explicit `null` / a dropped icon) -/
 abbrev DSlots := List (Option (Option Val))
+
+/-- child of a container type by position: element of a vector, member of a struct / union -/
+def Ty.child : Ty → Nat → Option Ty
+  | .vec _ t, 0 => some t
+  | .filtered _ _ _ _ e, 0 => some e
+  | .indexed _ fs, i => (fs.nth i).map (·.2)
+  | .text fs, i => (fs.nth i).map (·.2)
+  | .untagged fs, i => (fs.nth i).map (·.2)
+  | _, _ => none
+
+/-- follow a path of child positions -/
+def walkTy : Ty → List Nat → Option Ty
+  | t, [] => some t
+  | t, i :: rest => match Ty.child t i with | some c => walkTy c rest | none => none
